@@ -109,8 +109,10 @@ class PopenFuture(concurrent.futures.Future):
             processes.append(parent_process)
 
             # ask politely to terminate first
+            # (a process of the tree that is gone already must not keep the others from being signalled)
             for process in processes:
-                process.terminate()
+                with contextlib.suppress(psutil.NoSuchProcess):
+                    process.terminate()
 
             # termination grace period
             with contextlib.suppress(psutil.TimeoutExpired, subprocess.TimeoutExpired):
@@ -118,8 +120,9 @@ class PopenFuture(concurrent.futures.Future):
 
             # after grace period, force kill
             for process in processes:
-                if process.is_running():
-                    process.kill()
+                with contextlib.suppress(psutil.NoSuchProcess):
+                    if process.is_running():
+                        process.kill()
 
         except psutil.NoSuchProcess:
             # process already terminated, nothing to do
